@@ -9,6 +9,7 @@ import (
 	"strings"
 	"sync"
 	"sync/atomic"
+	"unicode"
 
 	"github.com/miekg/dns"
 	"github.com/prometheus/client_golang/prometheus"
@@ -350,6 +351,15 @@ func (b *BlockList) setLocked(key string) bool {
 		return false
 	}
 
+	// The list is persisted one key per line in hosts-file syntax, where
+	// whitespace separates fields and '#' starts a comment. A key containing
+	// either would be written verbatim and come back after a restart as a
+	// different, usually broader entry ("a#b.test." as "a."), so refuse it
+	// here and let the caller see that nothing was added.
+	if !persistable(key) {
+		return false
+	}
+
 	if strings.HasPrefix(key, "*.") {
 		b.wild[key[2:]] = true
 	} else {
@@ -401,7 +411,7 @@ func (b *BlockList) Exists(key string) bool {
 	// covers subdomains only.
 	offset := 0
 	for {
-		idx := strings.IndexByte(key[offset:], '.')
+		idx := nextDot(key[offset:])
 		if idx == -1 {
 			break
 		}
@@ -429,7 +439,7 @@ func matchHierarchy(name string, m map[string]bool) bool {
 	}
 	offset := 0
 	for {
-		idx := strings.IndexByte(name[offset:], '.')
+		idx := nextDot(name[offset:])
 		if idx == -1 {
 			return false
 		}
@@ -438,6 +448,29 @@ func matchHierarchy(name string, m map[string]bool) bool {
 			return true
 		}
 	}
+}
+
+// nextDot returns the index of the first '.' in s that separates two labels,
+// or -1. A dot inside a label is written "\." in presentation form (and any
+// byte may be written "\DDD"); cutting there would match "a\.b.example.com."
+// — the single label "a.b" under example.com. — against an entry for
+// "b.example.com.", which is not one of its parents.
+func nextDot(s string) int {
+	for i := 0; i < len(s); i++ {
+		switch s[i] {
+		case '\\':
+			i++ // the escaped byte; the digits of \DDD are no dots either
+		case '.':
+			return i
+		}
+	}
+	return -1
+}
+
+// persistable reports whether key survives the trip through the local
+// blocklist file unchanged (see parseHostFile).
+func persistable(key string) bool {
+	return !strings.Contains(key, "#") && strings.IndexFunc(key, unicode.IsSpace) < 0
 }
 
 // (*BlockList).Length length returns the caches length.
